@@ -178,6 +178,13 @@ def check_file_case(ctx, case):
         exp_pb_out = placeholder if len(rin) > limit_bytes else rin
         for what, o, want, path in (('recorded', ro[0], exp_rec_out, o1), ('replayed', po[0], exp_pb_out, o2)):
             holder = helper.restore_output_from_recording(o.value)
+            # restoring is a read: doing it again gives the same holder (an extractor runs more than once per output)
+            holder_again = helper.restore_output_from_recording(o.value)
+            if not isinstance(holder_again, InterceptedOutputFileHolder) or \
+                    holder_again.file_content != holder.file_content or \
+                    holder_again.output_file_path != holder.output_file_path:
+                raise Violation('restoring the %s output a second time gave %r, the first time %r' % (
+                    what, getattr(holder_again, 'file_content', holder_again), holder.file_content), 'output-bytes')
             if not isinstance(holder, InterceptedOutputFileHolder):
                 raise Violation('restore_output_from_recording returned %r' % (holder,), 'output-holder')
             if holder.file_content != want:
